@@ -150,6 +150,8 @@ def cases(tier):
     for backend in ("sql", "kv"):
         for first in lin:
             out.append(("linear", backend, [first], 3 if tier == "quick" else 4))
+        # several workers configured, but the link to the notify server is down (as in the first seconds after start-up)
+        out.append(("notifier_down", backend, ["reg"], 2))
     return out
 
 
@@ -192,7 +194,41 @@ def run_linear(case):
             "sample": {"case": "linear", "backend": backend, "first": first, "submissions": n}}
 
 
+def run_notifier_down(case):
+    from .. import seq
+
+    _, backend, _, depth = case
+    uni = CHECK.U()["U6"]
+    sess = seq.session(backend, config={"run_notifier": True})
+    orc = oracle(backend, uni, sess)
+    viol = []
+    n = 0
+    names = ["reg", "reg_b", "repl_t10", "repl_t20", "del_reg", "eph", "badsig"]
+    import itertools
+
+    for seqn in itertools.product(names, repeat=depth):
+        sess.reset()
+        hist = []
+        for nm in seqn:
+            pre = sess.dump()
+            r = sess.submit(uni[nm])
+            post = sess.dump()
+            n += 1
+            for v in orc(hist, pre, nm, r, post):
+                viol.append({"case": "%s|U=U6|notifier-down" % backend, "clause": v["clause"], "sig": "%s@%s" % (v["sig"], ",".join(hist + [nm])),
+                             "detail": v["detail"] + " | notifier enabled but not connected, history=" + ",".join(hist + [nm])})
+            hist.append(nm)
+    uniq = {}
+    for v in viol:
+        uniq.setdefault((v["clause"], v["sig"]), v)
+    return {"id": "notifier_down|%s" % backend, "viol": list(uniq.values()), "outcome": None, "evals": n, "states": 0, "transitions": n, "nontrivial": True,
+            "desc": describe(case), "extra": {"notifier_down_submissions": n},
+            "sample": {"case": "notifier_down", "backend": backend, "submissions": n}}
+
+
 def run_case(case):
+    if case[0] == "notifier_down":
+        return run_notifier_down(case)
     if case[0] == "linear":
         return run_linear(case)
     if case[0] != "conformance":
